@@ -17,12 +17,17 @@ mask = is_pending_send | is_pending_send_capacity<<1 | is_pending_accept<<2 | is
   streams.ref_new       : life(s)                                    (OpaqueStreamRef::new, before ref_inc; the caller did refs += 1)
   streams.ref_clone     : life(s), refs                              (OpaqueStreamRef::clone, before ref_inc / refs += 1)
   streams.ref_drop      : life(s), refs_after_dec, is_closed         (drop_stream_ref after refs -= 1, before ref_dec)
+  streams.ref_drop_end  : refs                                       (drop_stream_ref after its transition block, before the
+                                                                      `if me.refs == 1 { wake }` added by fix 6b1d165)
   streams.wake_conn     : task_is_some                               (the `task.take()/wake()` of drop_stream_ref and of Streams::drop)
   streams.clone         : refs                                       (Streams::clone, before refs += 1)
   streams.drop          : refs                                       (Streams::drop, before refs -= 1)
   streams.has_refs      : has_streams, refs                          (Streams::has_streams_or_other_references)
   streams.ppp_push      : life(parent)                               (Inner::recv_push_promise, before the promised record is pushed
                                                                       onto the parent's pending_push_promises)
+  budget.record         : payload_len, available, max, num_recv_empty_data_frames   (Counts::record_data_frame entry)
+  budget.release        : payload_len, available, max, num_recv_empty_data_frames   (Counts::release_data_frame entry)
+  budget.result         : res_is_ok                                  (Inner::recv_data after recv_data + record_data_frame)
   conn.maybe_close_enter:                                            (Connection::maybe_close_connection_if_no_streams entry)
 """
 import sys
@@ -236,6 +241,44 @@ impl Key {
         s = s.replace(a, t)
         open(p, "w").write(s)
         done.append("streams.rs Streams clone/drop/has_refs/ppp_push")
+
+    s = open(p).read()
+    if '"streams.ref_drop_end"' not in s:
+        a = "    if me.refs == 1 {\n        if let Some(task) = me.actions.task.take() {\n"
+        assert s.count(a) == 1
+        t = ('    #[cfg(feature = "verif-hooks")]\n    crate::verif::ev("streams.ref_drop_end", || vec![me.refs as i64]);\n'
+             "    if me.refs == 1 {\n"
+             '        #[cfg(feature = "verif-hooks")]\n        crate::verif::ev("streams.wake_conn", || {\n            vec![me.actions.task.is_some() as i64]\n        });\n'
+             "        if let Some(task) = me.actions.task.take() {\n")
+        s = s.replace(a, t)
+        open(p, "w").write(s)
+        done.append("streams.rs drop_stream_ref end")
+
+    # ---------------------------------------------------------------- counts.rs / streams.rs: DATA-frame budget (C18)
+    p = REPO + "proto/streams/counts.rs"
+    s = open(p).read()
+    if '"budget.record"' not in s:
+        a = "    pub fn record_data_frame(&mut self, payload_len: usize) -> Result<(), BudgetExhausted> {\n"
+        assert s.count(a) == 1
+        s = s.replace(a, a + hook(8, "ev", "budget.record",
+                                  "\n                payload_len as i64,\n                self.data_frame_budget.available as i64,\n"
+                                  "                self.data_frame_budget.max as i64,\n                self.num_recv_empty_data_frames as i64,\n            "))
+        a = "    pub fn release_data_frame(&mut self, payload_len: usize) {\n"
+        assert s.count(a) == 1
+        s = s.replace(a, a + hook(8, "ev", "budget.release",
+                                  "\n                payload_len as i64,\n                self.data_frame_budget.available as i64,\n"
+                                  "                self.data_frame_budget.max as i64,\n                self.num_recv_empty_data_frames as i64,\n            "))
+        open(p, "w").write(s)
+        done.append("counts.rs budget.record / budget.release")
+    p = REPO + "proto/streams/streams.rs"
+    s = open(p).read()
+    if '"budget.result"' not in s:
+        a = ("            // Any stream error after receiving a DATA frame means\n"
+             "            // we won't give the data to the user, and so they can't\n")
+        assert s.count(a) == 1
+        s = s.replace(a, '            #[cfg(feature = "verif-hooks")]\n            crate::verif::ev("budget.result", || vec![res.is_ok() as i64]);\n' + a)
+        open(p, "w").write(s)
+        done.append("streams.rs budget.result")
 
     # ---------------------------------------------------------------- connection.rs
     p = REPO + "proto/connection.rs"
